@@ -498,6 +498,10 @@ make_decoded_option(const uint8_t *s, size_t length,
   if (res < 0)
     return -1;
 
+  /* an option header cannot carry a length above 269 + 65535 */
+  if (segmentlen > 65804)
+    return -1;
+
   /* write option header using delta 0 and length res */
   written = coap_opt_setheader(buf, buflen, 0, segmentlen);
 
